@@ -159,12 +159,23 @@ def findEndPos (s : List Byte) : Int :=
   | .done p => p
   | .neg _ => -1
 
-/-- `RawStreamProto::onRecvData` up to `Json::parse` (note: −1 of `FindEndPos` becomes `return 0`) -/
-def decodeRaw (data : List Byte) : Frame :=
+/-- `RawStreamProto::onRecvData` up to `Json::parse`.  `fixed = false` is the tree before
+patches/C14-03-raw-unbalanced-is-an-error.diff: a −1 of `FindEndPos` (a closing bracket without
+its opening one — no continuation can repair it) fell through to `return 0` ("need more bytes"),
+so the malformed input was never reported and the stream stalled for ever; `fixed = true`
+returns −2 (the code the header framing uses for a framing error). -/
+def decodeRawG (fixed : Bool) (data : List Byte) : Frame :=
   if data.length < 2 then .needMore
   else
     let e := findEndPos data
-    if e > 0 then .frame (data.take e.toNat) e.toNat else .needMore
+    if e > 0 then .frame (data.take e.toNat) e.toNat
+    else if fixed ∧ e < 0 then .err (-2)
+    else .needMore
+
+/-- the repaired code (the tree this package describes) -/
+def decodeRaw (data : List Byte) : Frame := decodeRawG true data
+/-- the code as found (kept for the counterexample) -/
+def decodeRawOrig (data : List Byte) : Frame := decodeRawG false data
 
 /-- `PacketProto::onRecvData` up to `Json::parse`: the datagram is the text -/
 def decodePacket (data : List Byte) : Frame :=
@@ -315,17 +326,40 @@ def Rpc.tick (s : Rpc) : Rpc × List REv :=
       let s1 := { s with ring := [] :: others, vn := vn', timerOn := if vn' = 0 then false else s.timerOn }
       s1.completeAll kRequestTimeout items
 
+/-- `static_cast<int>` of a 64-bit integer (two's complement wrap, as g++ does) -/
+def wrap32 (v : Int) : Int := (v + 2147483648) % 4294967296 - 2147483648
+
+/-- the `id` member of a response written as the integer literal `v`, as `Proto::onRecvJson`
+obtains it through `util::json::GetField(js, "id", int&)`.  `none` = the getter fails (the response
+is dropped, or handed on with id 0 which is never pending).  `fixed = false` is the tree before
+patches/C14-04-json-get-int-range.diff: every literal that nlohmann stores as a 64-bit integer was
+accepted and truncated by `get<int>()` (literals beyond 64 bit become floating point and fail);
+`fixed = true` accepts exactly the values of `int`. -/
+def respIdG (fixed : Bool) (v : Int) : Option Int :=
+  if fixed then
+    (if -2147483648 ≤ v ∧ v ≤ 2147483647 then some v else none)
+  else
+    (if -9223372036854775808 ≤ v ∧ v < 18446744073709551616 then some (wrap32 v) else none)
+
+/-- a response with id literal `rid` arrives -/
+def Rpc.respondG (fixed : Bool) (s : Rpc) (rid : Int) (code : Int) : Rpc × List REv :=
+  match respIdG fixed rid with
+  | none => (s, [])
+  | some id => s.complete id code
+
+def Rpc.respond (s : Rpc) (rid : Int) (code : Int) : Rpc × List REv := s.respondG true rid code
+
 inductive Op where
   | request (chain : Bool)
   | notify
-  | response (id : Int) (code : Int)
+  | response (id : Int) (code : Int)     -- id: the integer literal in the message, any size
   | tick
 deriving Repr, DecidableEq
 
 def step (s : Rpc) : Op → Rpc × List REv
   | .request chain => s.request chain
   | .notify => (s, [.sent 0])
-  | .response id code => s.complete id code
+  | .response id code => s.respond id code
   | .tick => s.tick
 
 def run (s : Rpc) : List Op → Rpc × List REv
